@@ -10,6 +10,10 @@ CLAIMED = {
           "Every frame count of 24 h at 7 rates is enumerated in the thorough tier (stratified in quick) against an independently written integer drop-frame reference; the unbounded parts (ClockTime, from_seconds on rationals/floats, writer syntaxes) are sampled by Hypothesis. Finite domain fully covered in thorough; the rest is exploration.",
           "Trusted: vt/ref_timecode.py (self-tested against SMPTE 12M worked examples at start-up). 24000/1001 only identity/monotone/range.",
           "DESIGN.md C12"),
+  "C17": ("exhaustive enumeration of all 65,536 word values against an independently written CEA-608 table; Hypothesis-generated lines for the disassembly",
+          "The whole domain (every 16-bit value, both parities) is enumerated in both tiers and compared, attribute by attribute, with a bit-pattern table written from CEA-608; all six code finders are evaluated for ambiguity. Multi-word lines are sampled (disassembly is checked to be word-local).",
+          "Trusted: vt/ref_608.py classify(); eight conventional Unicode cells accept alternatives; colours compared by class (CEA-608 names colours, not RGB).",
+          "DESIGN.md C17"),
 }
 NOT_APPLICABLE = {}
 
